@@ -277,7 +277,7 @@ def run(repo, chk):
            pr.where, "a positive order opens a new handle and advances")
     chk.ob("R15.3", "opparse.Parser.process:negative-closes", under(f"{ordv} < 0", "middle = self.finalize(current)", "current = stack.pop()"),
            pr.where, "a negative order closes the current handle")
-    chk.ob("R15.3", "opparse.Parser.process:zero-merges", under(f"{ordv} == 0", "current += [middle, right]", "right = _next()"),
+    chk.ob("R15.3", "opparse.Parser.process:zero-merges", under(f"{ordv} == 0", "current.append(middle)", "current.append(right)", "right = _next()"),
            pr.where, "a zero order merges into the current handle (brackets)")
 
     # ---------------- R15.4
